@@ -5,6 +5,7 @@ ONLY property theorems live here (helper lemmas: InToto/Proofs/Cert.lean).
 Model: InToto/Model/Cert.lean.  X.509 parsing / path validation are oracles (`CertInfo`).
 -/
 import InToto.Proofs.Cert
+import InToto.Generated.Facts
 
 namespace InToto.C07
 open InToto InToto.Cert InToto.CertProofs
@@ -74,5 +75,8 @@ theorem examples :
     attrOK [[]] [] = true ∧ attrOK [] [[]] = true ∧ attrOK [] [lit% "a"] = false ∧
     attrOK [lit% "*"] [lit% "x", lit% "y"] = true ∧ attrOK [lit% "*", lit% "a"] [lit% "a"] = false := by
   decide
+
+/-- fact regenerated from the source on every run: the wildcard constant -/
+theorem facts_wildcard : Generated.constAllowAllConstraint = lit% "*" := by decide
 
 end InToto.C07
